@@ -161,14 +161,14 @@ fn recon_failure(case: &mut Case, b: &Built, what: &str, ctx: &str, panic_loc: O
     }
 }
 
-const ICC_RGB: [&[u8]; 5] = [
+pub(crate) const ICC_RGB: [&[u8]; 5] = [
     include_bytes!("/repo/crates/jxl-color/src/icc/test-profiles/srgb-rel.icc"),
     include_bytes!("/repo/crates/jxl-color/src/icc/test-profiles/srgb-linear-rel.icc"),
     include_bytes!("/repo/crates/jxl-color/src/icc/test-profiles/srgb-gamma22-rel.icc"),
     include_bytes!("/repo/crates/jxl-color/src/icc/test-profiles/srgb-bt709-per.icc"),
     include_bytes!("/repo/crates/jxl-color/src/icc/test-profiles/prophoto-gamma18-rel.icc"),
 ];
-const ICC_GRAY: [&[u8]; 2] = [
+pub(crate) const ICC_GRAY: [&[u8]; 2] = [
     include_bytes!("/repo/crates/jxl-color/src/icc/test-profiles/gray-d65-srgb-rel.icc"),
     include_bytes!("/repo/crates/jxl-color/src/icc/test-profiles/gray-d65-linear-rel.icc"),
 ];
@@ -905,4 +905,12 @@ pub fn run(args: &Args) -> i32 {
             _ => check_hostile(case, &mut rng, thorough),
         }
     })
+}
+
+/// A valid VarDCT image (transcoded random JPEG, optionally with a valid embedded ICC profile) for
+/// the checkers whose oracle compares the decoder with itself (C06, C07).
+pub(crate) fn valid_vardct_image(rng: &mut Rng, max_dim: u32) -> Option<(Vec<u8>, JpegSpec)> {
+    let rgb: Vec<Vec<u8>> = ICC_RGB.iter().map(|p| p.to_vec()).collect();
+    let gray: Vec<Vec<u8>> = ICC_GRAY.iter().map(|p| p.to_vec()).collect();
+    jxlgen::vardct::random_vardct_jpeg_image_with(rng, max_dim, &rgb, &gray)
 }
